@@ -13,7 +13,7 @@ from typing import Any
 
 from . import core
 from .core import Hooks, VerifCrash
-from .programs import build_workflow, task_class_name
+from .programs import build_decoy, build_workflow, task_class_name
 from .project import HARNESS_DDL, Projector
 from .vtask import LEDGER, VerifTask
 
@@ -72,6 +72,8 @@ class Run:
         queue._create_table()
         self.raw = core.raw_connect(self.db)
         self.raw.executescript(HARNESS_DDL)
+        if os.environ.get("VERIF_DECOY", "1") != "0":
+            store.store(build_decoy(self.prog))       # an older finished workflow with the same ref_ids (see build_decoy)
         wf = build_workflow(self.prog)
         store.store(wf)
         with store.transaction(queue) as txn:
